@@ -47,7 +47,12 @@ TCover ==
            missing == allowed \ reached
            extra == reached \ allowed
            cls == IF StarvedPass(hs, {}) THEN "passthrough-hook-without-input" ELSE "-"
-       IN /\ cov' = cov \cup (IF missing # {} THEN {<<case, Ev.how, "outcome-not-reached", cls>>} ELSE {})
+       IN IF Ev.unstable = 1
+          \* the scripted prefix did not leave the same state in every run: the implementation is
+          \* nondeterministic (C38's business); outcome sets of different states are not comparable
+          THEN cov' = cov \cup {<<case, Ev.how, "unstable-prefix", "-">>}
+          ELSE
+          /\ cov' = cov \cup (IF missing # {} THEN {<<case, Ev.how, "outcome-not-reached", cls>>} ELSE {})
                         \cup (IF extra # {} THEN {<<case, Ev.how, "outcome-not-allowed", cls>>} ELSE {})
           /\ (missing # {} \/ extra # {}) =>
                 PrintT(<<"COVER", ToJson([case |-> case, how |-> Ev.how, hooks |-> kind,
